@@ -8,6 +8,7 @@ pub mod common;
 pub mod c01;
 pub mod c02;
 pub mod c05;
+pub mod c04;
 pub mod c17;
 pub mod c12;
 pub mod c06;
@@ -32,6 +33,7 @@ pub fn generate(property: &str, run_seed: u64) -> Scenario {
         "C01" => c01::generate(run_seed),
         "C02" => c02::generate(run_seed),
         "C05" => c05::generate(run_seed),
+        "C04" => c04::generate(run_seed),
         "C17" => c17::generate(run_seed),
         "C12" => c12::generate(run_seed),
         "C06" => c06::generate(run_seed),
@@ -46,6 +48,7 @@ pub fn execute(scn: &Scenario, keep_log: bool) -> (RunResult, Vec<String>) {
         "C01" => crate::with_scheme!(scn.scheme.as_str(), c01_run(scn, &log)),
         "C02" => crate::with_scheme!(scn.scheme.as_str(), c02_run(scn, &log)),
         "C05" => crate::with_scheme!(scn.scheme.as_str(), c05_run(scn, &log)),
+        "C04" => crate::with_scheme!(scn.scheme.as_str(), c04_run(scn, &log)),
         "C17" => crate::with_scheme!(scn.scheme.as_str(), c17_run(scn, &log)),
         "C12" => crate::with_scheme!(scn.scheme.as_str(), c12_run(scn, &log)),
         "C06" => crate::with_scheme!(scn.scheme.as_str(), c06_run(scn, &log)),
@@ -83,4 +86,8 @@ fn c12_run<S: crate::schemes::Scheme>(scn: &Scenario, log: &EventLog) -> RunResu
 
 fn c17_run<S: crate::schemes::Scheme>(scn: &Scenario, log: &EventLog) -> RunResult {
     c17::run::<S>(scn, log)
+}
+
+fn c04_run<S: crate::schemes::Scheme>(scn: &Scenario, log: &EventLog) -> RunResult {
+    c04::run::<S>(scn, log)
 }
